@@ -10,8 +10,13 @@ sys.path.insert(0, str(VERIF))
 BASELINE = "cd /repo && env -u HYPERCORN_VERIF /venv/bin/python -m pytest -ra -q -p no:cacheprovider --timeout=900 --continue-on-collection-errors"
 props = [json.loads(l) for l in (VERIF / "properties.jsonl").read_text().splitlines() if l.strip()]
 checks, na = [], []
+# properties whose check exists in the tree but is not claimed yet (being built / not yet quiet on the unchanged tree)
+UNREADY = json.loads((VERIF / "tools" / "unready.json").read_text()) if (VERIF / "tools" / "unready.json").exists() else {}
 for p in props:
     pid = p["id"]
+    if pid in UNREADY:
+        na.append({"property_id": pid, "reason": UNREADY[pid]})
+        continue
     try:
         spec = importlib.import_module(f"harness.gen.{pid}").SPEC
     except ModuleNotFoundError as e:
